@@ -10,6 +10,7 @@
 import Mathlib.Algebra.Order.Field.Basic
 import TjdModel.Agg.Spec
 import TjdLemmas.QPLemmas
+import TjdLemmas.C12Extra
 namespace Tjd.Props.C03
 open Tjd Tjd.Agg
 
@@ -98,5 +99,12 @@ theorem upgrad_nonconflict (J : Mat α) (m n : Nat) (hJ : MatWF J m n) (s normEp
     (h : upgradWeights J s normEps regEps u = some (w, mg)) :
     NonConflictUpTo J (combine n J w) (w.map fun wi => regEps * (s * s) * wi) := by
   exact upgrad_nc J m n hJ s normEps regEps hs hs0 u w hu mg h
+
+/-- the minimiser of the projection QP does not change when the matrix is multiplied by a positive number — so
+    `(1 - e) G + e I` (a "shrinkage" regulariser) has the minimiser of `G + (e / (1 - e)) I`, not of `G + e I`: the
+    regularisation the property speaks of is the ADDITIVE one -/
+theorem isQPMin_scale (G : Mat α) (u w : Vec α) (c : α) (hc : 0 < c) :
+    IsQPMin (G.map (smul c)) u w ↔ IsQPMin G u w := by
+  exact isQPMin_scale_c12x G u w c hc
 
 end Tjd.Props.C03
